@@ -99,7 +99,10 @@ def build_s4(repo=REPO, target=TARGET, quiet=True):
         open(hpath, "w").write(h)
     env = _cargo_env()
     env["RUSTFLAGS"] = "--cfg s4_verif --check-cfg cfg(s4_verif) -Awarnings"
-    cmd = ["cargo", "build", "--offline", "--profile", "verif", "--bin", "s4",
+    # reach measurement (tools/coverage.sh): another toolchain / extra flags into a separate S4SIM_TARGET; never set by a check
+    if os.environ.get("S4SIM_EXTRA_RUSTFLAGS"):
+        env["RUSTFLAGS"] += " " + os.environ["S4SIM_EXTRA_RUSTFLAGS"]
+    cmd = ["cargo"] + ([os.environ["S4SIM_CARGO_TOOLCHAIN"]] if os.environ.get("S4SIM_CARGO_TOOLCHAIN") else []) + ["build", "--offline", "--profile", "verif", "--bin", "s4",
            "--manifest-path", os.path.join(shadow, "Cargo.toml"), "--target-dir", target]
     r = subprocess.run(cmd, env=env, stdout=subprocess.PIPE, stderr=subprocess.STDOUT, text=True)
     if r.returncode != 0:
